@@ -54,7 +54,12 @@ PROPS = {
                     'a total preorder with which Go\'s Cmp is compatible, negative zero included), that quote results are ordered, and that '
                     'at most f present values give an error. The model is compared with llo.MedianAggregator/QuoteAggregator on generated '
                     'cases (exact value incl. representation up to 12 values, numeric above), and the property predicate is evaluated on '
-                    'the Go results with the generator\'s honest/faulty tags.',
+                    'the Go results with the generator\'s honest/faulty tags. The same is proved at the level of Plugin.Outcome '
+                    '(C02_outcome_*: the aggregate the NEW OUTCOME holds) and end to end (C02_llo_*_between_data_sources / _clocks): senders are '
+                    'correct nodes - the model of Plugin.Observation applied to their caches, data source and clock, marshalled in any map order - or '
+                    'arbitrary bytes, and the committed aggregate / timestamp lies between values the correct nodes\' DATA SOURCES / clocks '
+                    'returned; the history projection evaluates the outcome-level predicate on every round of the real plugin and the observe '
+                    'projection checks that a real correct node sends exactly its data source\'s values and its own clock.',
         assumptions=['honest observers report values of one type for a stream (needed: see DESIGN.md C02)',
                      'sort.Slice returns a numerically sorted permutation for a comparator compatible with a total preorder (pdqsort, n>12)'],
         level_text='Coq theorems (any list length, any f, any faulty values) that the modelled median / quote / timestamped-median aggregators '
@@ -104,7 +109,8 @@ PROPS = {
                     'serialise to identical bytes (and then the decoding of exactly those bytes), that with <= f faulty values a correct '
                     'observer reported it, that the result is invariant under every permutation of the list, and that otherwise it errs. '
                     'The model (including the protobuf wire encoding used as the comparison key) is compared with llo.ModeAggregator; the '
-                    'predicate is evaluated on the Go results.',
+                    'predicate is evaluated on the Go results. End to end (C15_llo_mode_from_a_correct_data_source): the Decimal / Quote the new '
+                    'outcome holds for a (stream, mode) pair is a value some correct node\'s data source returned.',
         assumptions=['proto.Marshal of the quote / timestamped-value messages is as modelled in Wire.v (compared on every run)'],
         level_text='Coq theorems for all lists and f about the modelled mode aggregator: f+1 byte-identical reports needed, honest witness, '
                    'permutation invariance (fixed tie-break), error otherwise; model tied to llo.ModeAggregator by differential testing.',
@@ -333,7 +339,9 @@ PROPS['C17'] = dict(
                 "equal decimals, identical everything else): Decimal.String -> NewFromString, the quote and timestamped-value regular "
                 "expressions (their source text is regenerated from /repo and must equal the modelled expressions), the JSON {t,v} envelope "
                 "with string escaping, hex digests, SeqNr check. The model is compared with the Go functions on every run (texts byte for "
-                "byte; JSON documents at the level of the structs around encoding/json) and the round-trip predicate is evaluated on the Go results.",
+                "byte; the JSON report and the packed tuple also BYTE FOR BYTE on the encoder side - incl. base64 signatures - with readers for exactly "
+                "those shapes run on the real bytes: C17_json_report_roundtrip_bytes, C17_pack_unpack_bytes, C17_unpack_decode_bytes, "
+                "C17_signature_base64_roundtrip) and the round-trip predicate is evaluated on the Go results (Pack, Unpack, UnpackDecode).",
     assumptions=["JSONReportCodec.Encode is modelled byte for byte (json_report_bytes = json.Marshal's output, compared on every run; "
                  "C17_json_report_roundtrip_bytes reads those bytes back); encoding/json's DEcoder is modelled only on that canonical shape: its "
                  "treatment of other JSON (whitespace, field order, duplicates, scientific notation) is library behaviour, taken at struct "
@@ -439,7 +447,9 @@ PROPS['C14'] = dict(
                 "every vote pattern of at most f faulty observers among >= f+1 correct ones: the 2000-channel cap always holds; only changes "
                 "voted by correct nodes happen; one round performs exactly the first 5 removals and first 5 additions/replacements (pointwise); "
                 "the distance lists shrink by 5 each round, so after ceil(max(#remove,#add-or-replace)/5) rounds the set equals the target and "
-                "then stays equal; what a correct node sends always passes ValidateObservation (C14_honest_observation_validates, using that "
+                "then stays equal (also end to end over histories of rounds on the wire: C14_llo_agreed_round / _stays_at_target / _convergence, from the "
+                "correct nodes' definition caches to the committed outcomes); what a correct node sends always passes ValidateObservation, as a struct and as "
+                "bytes (C14_honest_observation_validates, C14_correct_bytes_validate, using that "
                 "VerifyChannelDefinitions is monotone in the channel set). H_cap (ids of current and target together fit the cap) is the only size hypothesis; at the cap itself and "
                 "for the stream-count limit (never refuses: known finding F1 outside H_streams) the harness decides on the real plugin chain. "
                 "The model's step is compared with the real Outcome on every generated round and the property predicate (votes accepted, no "
